@@ -10,7 +10,11 @@ ids = ["C%02d" % i for i in range(1, 21)]
 checks, na = [], []
 for pid in ids:
     if pid in STAGES and pid in CLAIMS:
-        c = CLAIMS[pid]
+        c = dict(CLAIMS[pid])
+        fg = [st["env"]["VERIF_FUZZ_TEST"] for st in STAGES[pid] if st.get("fuzz") and st.get("env", {}).get("VERIF_FUZZ_TEST")]
+        if fg:
+            c["text"] += (" Thorough tier, in addition: Go's native coverage-guided fuzzer drives the choice sequences of the same rapid generators (FuzzGen over %s; rapid.MakeFuzz), "
+                          "so coverage feedback from the instrumented library steers the structured generators; the oracle is unchanged, a crasher is a corpus file that replays with ./check %s replay." % (", ".join(fg), pid))
         checks.append({
             "property_id": pid,
             "quick_cmd": "./check %s quick" % pid,
